@@ -1,1 +1,216 @@
-/-! # C01 — property theorems (to be filled in) -/
+import JokerVerif.Lemmas.KernelReal
+/-!
+# C01 — marginal log-likelihood equals the analytic Gaussian marginal
+
+Property theorems only.  `n`, `k`, the design matrix `M`, the data, the jitter, the prior means and variances
+are universally quantified; nothing is bounded.
+-/
+open Matrix
+
+namespace Kernel
+
+section Field
+variable {α : Type} [Field α] {n k : Nat}
+
+/-- the jitter is folded in as *added variance*: `iv / (1 + s² iv) = 1 / (1/iv + s²)` -/
+theorem getIvar_is_inverse_of_sum (iv s : α) (h1 : iv ≠ 0) (h2 : 1 + s * s * iv ≠ 0) :
+    getIvar iv s = (iv⁻¹ + s ^ 2)⁻¹ := by
+  unfold getIvar
+  have h3 : iv⁻¹ + s ^ 2 ≠ 0 := by
+    intro h
+    apply h2
+    have : (iv⁻¹ + s ^ 2) * iv = 0 := by rw [h, zero_mul]
+    rw [add_mul, inv_mul_cancel₀ h1] at this
+    rw [← this]; ring
+  field_simp
+
+/-- … and it is safe for a zeroed-out inverse variance -/
+theorem getIvar_zero (s : α) : getIvar 0 s = 0 := by simp [getIvar]
+
+/-- what a valid input means over a field: non-zero (jitter-inflated) inverse variances, non-zero prior
+variances, invertible `A⁻¹` -/
+structure Valid (x : KIn n k α) : Prop where
+  cs_ne : ∀ i, cs x i ≠ 0
+  lam_ne : ∀ j, vfun x.lam j ≠ 0
+  unit : IsUnit (kAinv x).toM.det
+
+/-- Woodbury, in the code's shape: the matrix `make_bBBinv` stores in `Binv` is the inverse of the one it
+stores in `B` -/
+theorem kernel_Binv_mul_B (x : KIn n k α) (h : Valid x) : (kBinv x).toM * (kB x).toM = 1 := by
+  rw [kBinv_toM, kB_toM, kA_toM, kAinv_toM]
+  have hu : IsUnit (diagonal (fun j => (vfun x.lam j)⁻¹) + x.M.toMᵀ * diagonal (cs x) * x.M.toM).det := by
+    rw [← kAinv_toM]; exact h.unit
+  exact KernelLemmas.kernel_woodbury x.M.toM (cs x) (vfun x.lam) h.cs_ne h.lam_ne hu
+
+theorem kernel_B_inv (x : KIn n k α) (h : Valid x) : ((kB x).toM)⁻¹ = (kBinv x).toM :=
+  inv_eq_left_inv (kernel_Binv_mul_B x h)
+
+/-- the `χ²` the kernel computes is `(y − Mμ)ᵀ B⁻¹ (y − Mμ)` with `B = C_s + M Λ Mᵀ` -/
+theorem kernel_chi2_eq (x : KIn n k α) (h : Valid x) :
+    kchi2 x = (vfun x.y - x.M.toM *ᵥ vfun x.mu) ⬝ᵥ (((kB x).toM)⁻¹ *ᵥ (vfun x.y - x.M.toM *ᵥ vfun x.mu)) := by
+  rw [kchi2_def, kernel_B_inv x h]
+  have e : x.M.toM *ᵥ vfun x.mu - vfun x.y = -(vfun x.y - x.M.toM *ᵥ vfun x.mu) := by abel
+  rw [e, mulVec_neg, neg_dotProduct, dotProduct_neg, neg_neg]
+
+/-- the determinant the driver evaluates (`∏ σ_s² · ∏ λ · det A⁻¹`) is `det B` -/
+theorem detB_eq_fast (x : KIn n k α) (h : Valid x) : kdetB x = kdetFast x := by
+  unfold kdetB kdetFast
+  rw [kB_toM, kAinv_toM]
+  have := KernelLemmas.det_identity x.M.toM (cs x) (vfun x.lam) h.cs_ne h.lam_ne
+  rw [this]
+  rfl
+
+omit [Field α] in
+/-- prior slots are in design-matrix column order `[K | v0 | dv0_1 … dv0_q | v1 … v_{p-1}]` … -/
+theorem slots_column_order (pr : LinPrior α) :
+    (slots pr).length = 2 + pr.offsets.length + pr.trend.length ∧
+    (slots pr)[0]? = some pr.K ∧ (slots pr)[1]? = some pr.v0 ∧
+    (∀ i, i < pr.offsets.length → (slots pr)[2 + i]? = pr.offsets[i]?) ∧
+    (∀ l, l < pr.trend.length → (slots pr)[2 + pr.offsets.length + l]? = pr.trend[l]?) := by
+  refine ⟨by simp [slots]; omega, by simp [slots], by simp [slots], ?_, ?_⟩
+  · intro i hi
+    have : 2 + i = i + 1 + 1 := by omega
+    simp [slots, this, List.getElem?_append_left hi]
+  · intro l _
+    have : 2 + pr.offsets.length + l = (pr.offsets.length + l) + 1 + 1 := by omega
+    simp [slots, this, List.getElem?_append_right]
+
+/-- … and so are the columns of a design-matrix row: Kepler term, constant, one indicator per non-reference
+survey, then the powers of `t − t_ref` — column `j` multiplies exactly the parameter whose prior is in slot `j` -/
+theorem designRow_columns (kep dt : α) (id q p : Nat) :
+    (designRow kep dt id q p).length = 2 + q + (p - 1) ∧
+    (designRow kep dt id q p)[0]? = some kep ∧ (designRow kep dt id q p)[1]? = some 1 ∧
+    (∀ j, j < q → (designRow kep dt id q p)[2 + j]? = some (if id = j + 1 then 1 else 0)) ∧
+    (∀ l, l < p - 1 → (designRow kep dt id q p)[2 + q + l]? = some (dt ^ (l + 1))) := by
+  refine ⟨by simp [designRow]; omega, by simp [designRow], by simp [designRow], ?_, ?_⟩
+  · intro j hj
+    have : 2 + j = j + 1 + 1 := by omega
+    simp [designRow, this, List.getElem?_append_left, hj]
+  · intro l hl
+    have : 2 + q + l = (q + l) + 1 + 1 := by omega
+    simp [designRow, this, hl]
+
+end Field
+
+noncomputable section
+variable {n k : ℕ}
+
+/-- the value `likelihood_worker` returns: `−½ (χ² + Σ_i log(2π |U_ii|))`, the `U_ii` being the pivots of the LU
+factorisation of `B` (LAPACK contract: `∏ |U_ii| = |det B|`) -/
+def kll (x : KIn n k ℝ) : ℝ :=
+  -(1/2) * (kchi2 x + Real.log ((2 * Real.pi) ^ n * |kdetB x|))
+
+/-- a physically valid input: `ivar_i = 1/σ_i²` with `σ_i > 0`, prior variances `λ_j > 0`, any real jitter -/
+structure Phys (x : KIn n k ℝ) (σ : Fin n → ℝ) : Prop where
+  sig_pos : ∀ i, 0 < σ i
+  ivar_eq : ∀ i, vfun x.ivar i = ((σ i) ^ 2)⁻¹
+  lam_pos : ∀ j, 0 < vfun x.lam j
+
+theorem Phys.cs_eq {x : KIn n k ℝ} {σ : Fin n → ℝ} (h : Phys x σ) (i : Fin n) :
+    cs x i = ((σ i) ^ 2 + x.s ^ 2)⁻¹ := by
+  have hs : 0 < (σ i) ^ 2 := pow_pos (h.sig_pos i) 2
+  have hiv := h.ivar_eq i
+  simp only [vfun] at hiv
+  rw [cs_apply, hiv]
+  have h2 : 1 + x.s * x.s * ((σ i) ^ 2)⁻¹ ≠ 0 := by
+    have : 0 ≤ x.s * x.s * ((σ i) ^ 2)⁻¹ := mul_nonneg (mul_self_nonneg _) (inv_nonneg.mpr hs.le)
+    linarith
+  rw [getIvar_is_inverse_of_sum _ _ (inv_ne_zero hs.ne') h2, inv_inv]
+
+theorem Phys.valid {x : KIn n k ℝ} {σ : Fin n → ℝ} (h : Phys x σ) : Valid x := by
+  have hv : ∀ i, 0 < (σ i) ^ 2 + x.s ^ 2 := fun i => by
+    have := pow_pos (h.sig_pos i) 2; positivity
+  refine ⟨fun i => ?_, fun j => (h.lam_pos j).ne', ?_⟩
+  · rw [h.cs_eq i]; exact inv_ne_zero (hv i).ne'
+  · rw [kAinv_toM]
+    have hcs : cs x = fun i => ((σ i) ^ 2 + x.s ^ 2)⁻¹ := funext h.cs_eq
+    rw [hcs]
+    exact ((kernel_posdef x.M.toM (fun i => (σ i) ^ 2 + x.s ^ 2) (vfun x.lam) hv h.lam_pos).2.det_pos).ne'.isUnit
+
+/-- `B` is the marginal covariance `C + s² I + M Λ Mᵀ` -/
+theorem Phys.B_eq {x : KIn n k ℝ} {σ : Fin n → ℝ} (h : Phys x σ) :
+    (kB x).toM = diagonal (fun i => (σ i) ^ 2) + (x.s ^ 2) • (1 : Matrix (Fin n) (Fin n) ℝ)
+      + x.M.toM * diagonal (vfun x.lam) * x.M.toMᵀ := by
+  rw [kB_toM]
+  congr 1
+  have : (fun i => (cs x i)⁻¹) = fun i => (σ i) ^ 2 + x.s ^ 2 := by
+    funext i; rw [h.cs_eq i, inv_inv]
+  rw [this, ← diagonal_one, ← diagonal_smul, diagonal_add]
+  congr 1
+  funext i
+  simp
+
+/-- **finite for every finite valid input** (real-number content): with `σ_i > 0`, `λ_j > 0` and any jitter, `B`
+and `A⁻¹` are positive definite, `det B > 0`, and no division by zero occurs -/
+theorem kernel_welldefined (x : KIn n k ℝ) (σ : Fin n → ℝ) (h : Phys x σ) :
+    (kB x).toM.PosDef ∧ (kAinv x).toM.PosDef ∧ 0 < kdetB x ∧ Valid x := by
+  have hv : ∀ i, 0 < (σ i) ^ 2 + x.s ^ 2 := fun i => by
+    have := pow_pos (h.sig_pos i) 2; positivity
+  have hcs : cs x = fun i => ((σ i) ^ 2 + x.s ^ 2)⁻¹ := funext h.cs_eq
+  have hp := kernel_posdef x.M.toM (fun i => (σ i) ^ 2 + x.s ^ 2) (vfun x.lam) hv h.lam_pos
+  have hB : (kB x).toM = diagonal (fun i => (σ i) ^ 2 + x.s ^ 2) + x.M.toM * diagonal (vfun x.lam) * x.M.toMᵀ := by
+    rw [kB_toM, hcs]; simp
+  have hA : (kAinv x).toM = diagonal (fun j => (vfun x.lam j)⁻¹)
+      + x.M.toMᵀ * diagonal (fun i => ((σ i) ^ 2 + x.s ^ 2)⁻¹) * x.M.toM := by
+    rw [kAinv_toM, hcs]
+  refine ⟨hB ▸ hp.1, hA ▸ hp.2, ?_, h.valid⟩
+  unfold kdetB; rw [hB]; exact hp.1.det_pos
+
+/-- **the statement of C01**: for every `n`, `k`, design matrix, data, errors `σ > 0`, jitter `s`, prior means
+`μ` and prior variances `λ > 0`, the value the kernel's algorithm produces is
+`ln N(y | M μ, C + s² I + M Λ Mᵀ)` -/
+theorem kernel_ll_eq_lnN (x : KIn n k ℝ) (σ : Fin n → ℝ) (h : Phys x σ) :
+    kll x = lnN (vfun x.y) (x.M.toM *ᵥ vfun x.mu)
+      (diagonal (fun i => (σ i) ^ 2) + (x.s ^ 2) • (1 : Matrix (Fin n) (Fin n) ℝ)
+        + x.M.toM * diagonal (vfun x.lam) * x.M.toMᵀ) := by
+  obtain ⟨_, _, hdet, hval⟩ := kernel_welldefined x σ h
+  unfold kll lnN
+  rw [kernel_chi2_eq x hval, abs_of_pos hdet, ← h.B_eq]
+  rfl
+
+/-- `N(y | Mμ, B)` *is* the likelihood with the linear parameters integrated out against their Normal prior:
+for every `x`, likelihood × prior = marginal × a normalised Gaussian in `x` (the only analytic fact not
+re-proved here is that a multivariate normal density integrates to one) -/
+theorem marginalisation_identity
+    (M : Matrix (Fin n) (Fin k) ℝ) (y : Fin n → ℝ) (v : Fin n → ℝ) (mu lam : Fin k → ℝ) (x : Fin k → ℝ)
+    (hv : ∀ i, 0 < v i) (hl : ∀ j, 0 < lam j) :
+    let Cs := diagonal v
+    let L := diagonal lam
+    let A := (L⁻¹ + Mᵀ * Cs⁻¹ * M)⁻¹
+    let a := A *ᵥ (L⁻¹ *ᵥ mu + Mᵀ *ᵥ (Cs⁻¹ *ᵥ y))
+    lnN y (M *ᵥ x) Cs + lnN x mu L = lnN y (M *ᵥ mu) (Cs + M * L * Mᵀ) + lnN x a A := by
+  have hu : IsUnit ((diagonal lam)⁻¹ + Mᵀ * (diagonal v)⁻¹ * M).det := by
+    rw [KernelLemmas.inv_diag v (fun i => (hv i).ne'), KernelLemmas.inv_diag lam (fun j => (hl j).ne')]
+    exact ((kernel_posdef M v lam hv hl).2.det_pos).ne'.isUnit
+  exact marginalisation_identity_abstract M y v mu lam x (fun i => (hv i).ne') (fun j => (hl j).ne') hu
+
+/-- the kernel's per-sample variance of `K` is the square of the `σ_K` that `distributions.py` declares:
+`min(max_K², σ_K0² (P/P0)^{-2/3} / (1−e²)) = (clip(σ_K0 (P/P0)^{-1/3} / √(1−e²), 0, max_K))²` -/
+theorem lambdaK_eq_clip_sq (s0 maxK P P0 e : ℝ) (hs : 0 ≤ s0) (hm : 0 ≤ maxK) (hP : 0 < P) (hP0 : 0 < P0)
+    (he : e ^ 2 < 1) :
+    lambdaK s0 maxK e ((P / P0) ^ (-(2:ℝ) / 3)) =
+      (min (max (s0 * (P / P0) ^ (-(1:ℝ) / 3) / Real.sqrt (1 - e ^ 2)) 0) maxK) ^ 2 := by
+  unfold lambdaK
+  rw [lambdaK_eq_sigma_sq s0 P P0 e hP hP0 he]
+  set S := s0 * (P / P0) ^ (-(1:ℝ) / 3) / Real.sqrt (1 - e ^ 2) with hS
+  have hS0 : 0 ≤ S := by
+    have h1 : 0 < 1 - e ^ 2 := by linarith
+    have : 0 < (P / P0) ^ (-(1:ℝ) / 3) := Real.rpow_pos_of_pos (div_pos hP hP0) _
+    positivity
+  rw [max_eq_left hS0]
+  rcases le_total S maxK with h | h
+  · rw [min_eq_left h, min_eq_right (pow_le_pow_left₀ hS0 h 2)]
+  · rw [min_eq_right h, min_eq_left (pow_le_pow_left₀ hm h 2)]
+
+end
+
+-- non-vacuity: a concrete valid input (2 epochs, 2 linear parameters) over ℚ evaluates, and satisfies `Valid`'s
+-- decidable ingredients; the closed form's pieces are the expected numbers
+def exIn : KIn 2 2 ℚ :=
+  { M := .ofFn fun i j => if j.val = 0 then (if i.val = 0 then 1/2 else -1/3) else 1,
+    y := #v[1, 2], ivar := #v[4, 1], s := 1/2, mu := #v[0, 1/10], lam := #v[100, 9] }
+example : (sIvar exIn).toList = [2, 4/5] := by decide +kernel
+example : (kAinv exIn).toM.det ≠ 0 := by decide +kernel
+example : kdetB exIn = kdetFast exIn := by decide +kernel
+
+end Kernel
